@@ -77,6 +77,7 @@ class Ctx(object):
         self.replay = replay
         self.rng = random.Random((seed * 1000003) ^ (0 if worker is None else (worker + 1) * 7919))
         self.t0 = time.time()
+        self.c0 = time.process_time()
         self.evaluations = 0
         self._distinct = set()
         self.samples = []
@@ -107,7 +108,11 @@ class Ctx(object):
         return max(1, thorough // max(1, self.nworkers))
 
     def time_left(self, budget_s):
-        return budget_s - (time.time() - self.t0)
+        """Remaining budget.  Measured in CPU time of this process so that the amount of work done (and with it
+        the evidence floors) does not depend on how loaded the machine is; wall-clock only caps it at 4x."""
+        cpu = time.process_time() - self.c0
+        wall = time.time() - self.t0
+        return min(budget_s - cpu, 4.0 * budget_s - wall)
 
     # -- recording -------------------------------------------------------------
     def case(self, key=None, nontrivial=True, n=1):
